@@ -339,7 +339,17 @@ def check_order_and_scope(idx: Index, rep: Report) -> None:
     # same guard variable, not reassigned in between, and no early exit between the two
     xtests = {cfg.node_of(n.test) for n in walk_local(f.node) if isinstance(n, ast.If) and any(x is ext[0] for x in ast.walk(n))}
     reassigned = any(isinstance(n, ast.Assign) and any(unparse(t_) == "scope" for t_ in n.targets) and cfg.node_of(n) in cfg.reachable(ne) for n in walk_local(f.node))
-    if ge == gx and ge and not reassigned and cfg.path_avoiding(ne, cfg.exit, lambda n: n.id in xtests | {nx}, follow_exc=False) is None:
+    from ..astutil import conjuncts as _cj
+
+    held = set(ge)  # what is known when enter_scope runs; it still holds afterwards (the guard variable is not re-assigned)
+
+    def _consistent(a_: int, b_: int, lab) -> bool:
+        e_ = cfg.nodes[a_].ast
+        if e_ is None or lab not in ("T", "F") or not isinstance(e_, ast.expr):
+            return True
+        return not any((unparse(atom), not truth) in held for atom, truth in _cj(e_, lab == "T"))
+
+    if ge == gx and ge and not reassigned and cfg.path_avoiding(ne, cfg.exit, lambda n: n.id == nx, follow_exc=False, edge_ok=_consistent) is None:
         r.ok(f.fq + ":paired", f"{f.loc} enter_scope/exit_scope under the same condition {ge}")
     else:
         r.fail(f.fq + ":paired", Finding("C04.R6", f.fq, "scope-unbalanced", f"enter_scope (under {ge}) is not matched by exit_scope (under {gx}) on every path", f.loc))
